@@ -133,7 +133,7 @@ def confirm_values_by_search(text, nd):
         pieces.append(text.encode()[p_:nxt].decode().strip())
     expr = '[' + ', '.join(pieces) + ']'
     want = [PC.var_to_tagged(pl) for _, pl in lits]
-    a = nd.request({'op': 'search', 'expr': expr, 'doc': None})
+    a = nd.request({'op': 'search', 'expr': expr, 'doc': True})          # any non-null document: a multi-select on null is null
     return (a.get('kind') != 'ok' or a.get('value') != want), {'expr': expr, 'expected': want, 'native': a}
 
 def confirm(c, nd, nr):
